@@ -856,7 +856,9 @@ func getPeerDirection(media *sdp.MediaDescription) RTPTransceiverDirection {
 		}
 	}
 
-	return RTPTransceiverDirectionUnknown
+	// RFC 3264 section 6.1 / RFC 8866 section 6.7: a media section without a
+	// direction attribute is sendrecv.
+	return RTPTransceiverDirectionSendrecv
 }
 
 func extractBundleID(desc *sdp.SessionDescription) string {
